@@ -1,17 +1,18 @@
 #!/bin/sh
-# tools/seed_matrix.sh [pairs...]: run seeded changes against checks, one at a time (each applies
-# the patch to /repo, runs the check with --no-evidence, undoes the patch).  A pair is
-# <seed-dir>:<Cnn>.  Results are appended to /var/tmp/seed-matrix.log.
+# tools/seed_matrix.sh [pairs...]: run seeded changes against checks, 3 at a time (each on its own
+# scratch copy of /repo's HEAD, see try_seed.sh).  A pair is <seed-dir>:<Cnn>.  Results are
+# appended to /var/tmp/seed-matrix.log.
 cd /verif || exit 2
-OUT=/var/tmp/seed-matrix.log
-for pair in "$@"; do
-  seed=${pair%%:*}; prop=${pair##*:}
-  echo "=== $seed -> $prop $(date +%T)" >> $OUT
+if [ "$1" = "--one" ]; then
+  pair=$2; seed=${pair%%:*}; prop=${pair##*:}
   sh tools/try_seed.sh "$prop" "seeded/$seed/patch.diff" --tier quick > /var/tmp/seed-$seed-$prop.out 2>&1
   rc=$?
-  grep -E "^VIOLATION|^KNOWN-FINDING|check exit code|\[quick\]" /var/tmp/seed-$seed-$prop.out | cut -c1-300 >> $OUT
-  grep -E "^  obligation" /var/tmp/seed-$seed-$prop.out | cut -c1-260 | head -4 >> $OUT
-  echo "rc=$rc" >> $OUT
-  git -C /repo status --short | head -3 >> $OUT
-done
-echo MATRIXDONE >> $OUT
+  {
+    echo "=== $seed -> $prop rc=$rc $(date +%T)"
+    grep -E "^VIOLATION|^KNOWN-FINDING|\[quick\]" /var/tmp/seed-$seed-$prop.out | cut -c1-300
+    grep -E "^  obligation" /var/tmp/seed-$seed-$prop.out | cut -c1-260 | head -4
+  } >> /var/tmp/seed-matrix.log
+  exit 0
+fi
+printf "%s\n" "$@" | xargs -P 3 -I{} sh tools/seed_matrix.sh --one {}
+echo MATRIXDONE >> /var/tmp/seed-matrix.log
